@@ -96,10 +96,10 @@ func descend(fn *ssa.Function, suffix string) *ssa.Function {
 }
 
 type propReport struct {
-	ID          string
-	Obls        map[string][]*SolveResult // by obligation name
-	Failed      []string
-	Known       []string
+	ID     string
+	Obls   map[string][]*SolveResult // by obligation name
+	Failed []string
+	Known  []string
 }
 
 type KnownFinding struct {
@@ -259,6 +259,16 @@ func main() {
 			sel = append(sel, o)
 		}
 	}
+	// support obligations: an untagged clause (a helper invariant, a callee precondition, a plain postcondition) of a
+	// function that carries a selected obligation is a lemma the selected proof may rest on (the invariant is assumed
+	// when the tagged postcondition is proved), so it is checked with it.
+	if len(want) != 0 {
+		for _, o := range all {
+			if o.Kind != "vacuity" && len(o.Tags) == 0 && funcsWith[o.Func] {
+				sel = append(sel, o)
+			}
+		}
+	}
 	work := *keep
 	if work == "" {
 		work, _ = os.MkdirTemp("", "govc-")
@@ -344,6 +354,8 @@ func main() {
 		for n, rs := range byName {
 			if rs[0].Obl.Kind == "vacuity" && funcs[rs[0].Obl.Func] {
 				names = append(names, n)
+			} else if pid != "ALL" && rs[0].Obl.Kind != "vacuity" && len(rs[0].Obl.Tags) == 0 && funcs[rs[0].Obl.Func] {
+				names = append(names, n) // untagged support obligation of a function under this property
 			}
 		}
 		sort.Strings(names)
